@@ -63,12 +63,14 @@ package websockets
 //@   requires len(injectionPath) >= 1
 //@   assigns jsonobjects
 //@   loop 1
+//@     at for _, pathComponent := range injectionPath
 //@     invariant[C11:descended-into-an-object] idx >= 0 ==> currJSONComponent != nil
 //@   ensures[C11:nil-message-is-an-error] msg == nil ==> r1 != nil && r0 == nil
 //@   ensures[C11:nothing-to-inject-is-identity] msg != nil && (injectionValues == nil || old(len(injectionValues)) == 0) ==> r0 == msg && r1 == nil
 //@   ensures[C11:type-kept] r1 == nil && r0 != nil ==> r0.Type == old(msg.Type)
 //@   ensures[C11:error-returns-no-message] r1 != nil ==> r0 == nil
 //@   loop 2
+//@     at for key, value := range injectionValues
 //@     assigns mapof(currJSONComponent)
 //@     invariant[C11:existing-keys-untouched] currJSONComponent != nil && forall_str(key2, pre(in(key2, currJSONComponent)) ==> in(key2, currJSONComponent) && currJSONComponent[key2] == pre(currJSONComponent[key2]))
 //@     invariant[C11:only-missing-injected-keys-added] forall_str(key2, in(key2, currJSONComponent) && !pre(in(key2, currJSONComponent)) ==> in(key2, injectionValues) && typeis(currJSONComponent[key2], "string") && ifaceStr(currJSONComponent[key2]) == injectionValues[key2])
@@ -98,6 +100,7 @@ package websockets
 // open, inner handler (wrapped by the session handler): the only peer ever dialled is ws://<configured backend host>;
 // the client-supplied URL contributes path and query only (C13); the request headers are handed on as they are (C09).
 //@ func createShimChannel$1 props(C13,C12,C09,C07)
+//@   at sessionID := fmt.Sprintf("%d", atomic.AddUint64(&sessionCount, 1))
 //@   requires w != nil && r != nil && r.URL != nil && r.Header != nil && rwWrites[w] == 0
 //@   ghost dials int = 0
 //@   ghost tgt string = ""
@@ -120,6 +123,7 @@ package websockets
 
 // open, outer handler: the request URL is replaced by the parsed body and nothing else of the request changes.
 //@ func createShimChannel$2 props(C13,C12,C07)
+//@   at targetURL, err := url.Parse(string(body))
 //@   requires w != nil && r != nil && r.Body != nil && r.Header != nil && rwWrites[w] == 0 && openWebsocketHandler != nil
 //@   ghost handed int = 0
 //@   call (http.Handler).ServeHTTP
@@ -130,6 +134,7 @@ package websockets
 
 // close: unknown session 400; otherwise the session is removed from the table, its connection closed, and 200 answered.
 //@ func createShimChannel$3 props(C12,C07)
+//@   at conn.Close()
 //@   requires w != nil && r != nil && r.Body != nil && rwWrites[w] == 0
 //@   ghost found bool = false
 //@   ghost deleted bool = false
@@ -151,6 +156,7 @@ package websockets
 
 // data: the messages of the request are handed to their sessions in array order, stopping at the first failure.
 //@ func createShimChannel$4 props(C11,C12,C07)
+//@   at var msgs []sessionMessage
 //@   requires w != nil && r != nil && r.Body != nil && r.Header != nil && rwWrites[w] == 0
 // sessions leave the table only through a close call or a poll that found the connection closed: a data call, whatever
 // it carries, must leave every session reachable for the calls that follow
@@ -171,12 +177,15 @@ package websockets
 //@   ensures[C11:all-forwarded-on-success] rwStatus[w] == 200 ==> !failed
 //@   ensures[C12:data-error-writes-once] rwStatus[w] != 200 ==> rwWrites[w] == 1
 //@   loop 1
+//@     at for key, value := range r.Header
 //@     invariant[C12:header-copy] rwWrites[w] == 0 && injectedHeaders != nil
 //@   loop 2
+//@     at for _, msg := range msgs
 //@     invariant[C11:data-progress] sent == idx + 1 && !failed && rwWrites[w] == 0
 
 // poll: unknown session 400; read error 400 and the session is dropped; timeout 408; otherwise 200 with the messages.
 //@ func createShimChannel$5 props(C12,C11,C07)
+//@   at serverMsgs, err := conn.ReadServerMessages()
 //@   requires w != nil && r != nil && r.Body != nil && rwWrites[w] == 0
 //@   ghost found bool = false
 //@   ghost readErr bool = false
@@ -225,6 +234,7 @@ package websockets
 //@   assigns nothing
 //@   ensures[C09:nothing-added-nothing-else-dropped] r0 != nil && fresh(r0) && forall_str(k, in(k, r0) <==> (header != nil && in(k, header) && !wsName(k))) && forall_str(k, in(k, r0) ==> r0[k] == header[k])
 //@   loop 1
+//@     at for k, v := range header
 //@     assigns mapof(result)
 //@     invariant[C09:strip-progress] result != nil && !allocated0(result) && forall_str(k, in(k, result) <==> (in(k, header) && visited[k] && !wsName(k))) && forall_str(k, in(k, result) ==> result[k] == header[k])
 
@@ -256,6 +266,7 @@ package websockets
 // reader: every message read from the backend websocket is queued for the client unchanged (same type, same bytes -
 // the slice ReadMessage returned, which nobody else holds), in read order, exactly once.
 //@ func NewConnection$1 props(C11,C12,C07)
+//@   at defer close(serverMessages)
 //@   requires serverConn != nil && serverMessages != nil && !closed(serverMessages) && ctx != nil
 //@   ghost reads int = 0
 //@   ghost sent int = 0
@@ -301,6 +312,7 @@ package websockets
 // "<head>") followed by the rest of the original body; closing it closes the original; only Content-Length is removed.
 //@ pure shimHTML(h ref) bool = contains(lower(hget(h, "Content-Type")), "html")
 //@ func ShimBody$1 props(C14,C07)
+//@   at if resp == nil || resp.Body == nil
 //@   requires resp != nil ==> (resp.Body != nil ==> resp.Header != nil)
 //@   ghost reads int = 0
 //@   ghost pfx string
